@@ -194,6 +194,94 @@ func c14NamespaceCycles(c *wk.Ctx) {
 	}
 }
 
+// c14NamespacedMembers: a one-of whose members are references into OTHER namespaces, given directly. Building the
+// scope links only the self namespace and must leave those members alone; the namespaces are then applied in both
+// orders. Once all are applied the one-of behaves like the same one-of over the objects themselves; a target that
+// contradicts the inlining flag is refused when its namespace arrives, as the constructors refuse the inlined tree.
+func c14NamespacedMembers(c *wk.Ctx) {
+	prop := func(t schema.Type) *schema.PropertySchema {
+		return schema.NewPropertySchema(t, nil, false, nil, nil, nil, nil, nil)
+	}
+	intT := func() schema.Type { return schema.NewIntSchema(nil, nil, nil) }
+	strT := func() schema.Type { return schema.NewStringSchema(nil, nil, nil) }
+	thing := func(bad bool) *schema.ObjectSchema {
+		props := map[string]*schema.PropertySchema{"x": prop(intT())}
+		if bad {
+			props["_type"] = prop(strT()) // contradicts "discriminator not inlined"
+		}
+		return schema.NewObjectSchema("Thing", props)
+	}
+	other := func() *schema.ObjectSchema {
+		return schema.NewObjectSchema("Other", map[string]*schema.PropertySchema{"y": prop(strT())})
+	}
+	inputs := []any{
+		map[string]any{"p": map[string]any{"_type": "a", "x": int64(1)}},
+		map[string]any{"p": map[string]any{"_type": "b", "y": "s"}},
+		map[string]any{"p": map[string]any{"_type": "b", "x": int64(1)}},
+		map[string]any{"p": map[string]any{"_type": "c"}},
+		map[string]any{}}
+	for _, bad := range []bool{false, true} {
+		// the comparison tree: the objects themselves as members
+		var inlined schema.Type
+		inlinedRefused, _, _, _ := wk.Guard(func() {
+			inlined = schema.NewScopeSchema(schema.NewObjectSchema("Root", map[string]*schema.PropertySchema{
+				"p": prop(schema.NewOneOfStringSchema[any](map[string]schema.Object{"a": thing(bad), "b": other()}, "_type", false))}))
+		})
+		for _, order := range [][]string{{"things", "others"}, {"others", "things"}} {
+			name := fmt.Sprintf("one-of over namespaced references, target contradicts the inlining flag: %v, order %v", bad, order)
+			c.Note("namespaced one-of members: build, " + name)
+			c.Count("namespaced_member_cases")
+			c.Eval(wk.Hash64("namespaced-members", name), true)
+			wit := map[string]any{"case": name}
+			var s *schema.ScopeSchema
+			if p, site, msg, _ := wk.Guard(func() {
+				s = schema.NewScopeSchema(schema.NewObjectSchema("Root", map[string]*schema.PropertySchema{
+					"p": prop(schema.NewOneOfStringSchema[any](map[string]schema.Object{
+						"a": schema.NewNamespacedRefSchema("Thing", "things", nil), "b": schema.NewNamespacedRefSchema("Other", "others", nil)}, "_type", false))}))
+			}); p {
+				c.Violation("C14:panic:NewScopeSchema:"+site, "a scope whose one-of members are references into other namespaces cannot be built (linking the self namespace touched them): "+msg, wit)
+				continue
+			}
+			refused := false
+			for _, ns := range order {
+				objs := map[string]*schema.ObjectSchema{"Thing": thing(bad)}
+				if ns == "others" {
+					objs = map[string]*schema.ObjectSchema{"Other": other()}
+				}
+				c.Note("namespaced one-of members: apply " + ns + ", " + name)
+				if p, _, _, _ := wk.Guard(func() { s.ApplyNamespace(objs, ns) }); p {
+					refused = true
+					break
+				}
+			}
+			if refused != inlinedRefused {
+				c.Violation("C14:refusal-differs-from-inlined:namespaced one-of members", fmt.Sprintf("linking refused: %v, but building the same tree with the objects in place of the references refused: %v", refused, inlinedRefused), wit)
+				continue
+			}
+			if refused {
+				continue
+			}
+			if err := s.ValidateReferences(); err != nil {
+				c.Violation("C14:validate-references-disagrees:ready=true", fmt.Sprintf("every namespace is applied but ValidateReferences()=%v", err), wit)
+			}
+			for _, in := range inputs {
+				var a, b any
+				var ea, eb error
+				c.Note("namespaced one-of members: Unserialize, " + name)
+				if p, site, msg, _ := wk.Guard(func() { a, ea = s.Unserialize(cmpx.DeepCopy(in)); b, eb = inlined.Unserialize(cmpx.DeepCopy(in)) }); p {
+					c.Violation("C14:panic:Unserialize:"+site, "Unserialize panicked: "+msg, wit)
+					continue
+				}
+				c.Count("recursive_inputs")
+				if (ea == nil) != (eb == nil) || (ea == nil && cmpx.Canon(a) != cmpx.Canon(b)) {
+					wit["input"] = cmpx.Canon(in)
+					c.Violation("C14:differs-from-inlined:namespaced one-of members", fmt.Sprintf("with references: %v %v; with the objects in their place: %v %v", cmpx.Canon(a), ea, cmpx.Canon(b), eb), wit)
+				}
+			}
+		}
+	}
+}
+
 func runC14(c *wk.Ctx) {
 	c.Meta("rule", "(a) generated non-recursive scope trees (nested scopes whose object IDs collide with outer ones, references under properties / lists / maps / one-ofs, 0..2 external namespaces, also external objects with the same ID as a local one) built through the constructors; the external namespaces are applied in EVERY order (all permutations) on separate instances; the same tree with every reference replaced by the object the harness' own lexical resolution finds (no references, no namespaces needed) is built as the comparison schema. Inputs: valid by construction, perturbed, with a property dropped. Oracle: identical accept/reject verdicts and equal unserialized values (and the reference interpreter's verdict), for every application order; before, between and after the ApplyNamespace calls ValidateReferences()==nil exactly when every reference enumerated through the public accessors reports ObjectReady(), and applying one namespace leaves the link state and target of references to other namespaces untouched. (b) the same for scopes rebuilt from their own description (UnserializeScope + ApplySelf). (c) recursive and mutually recursive scopes (hand-written shapes) on finite inputs of nesting depth 1..500 and on non-map values. distinct = hash(scope, namespaces, input); non-trivial = the tree has a nested scope or an external namespace")
 	c.Meta("assumptions", []string{"references directly under a one-of are only generated for the self namespace (the SDK inspects member properties while linking)",
@@ -205,6 +293,10 @@ func runC14(c *wk.Ctx) {
 	if c.Mine(0) {
 		c.Begin(0, "namespace cycles")
 		c14NamespaceCycles(c)
+	}
+	if c.Mine(2) {
+		c.Begin(2, "one-of members that are references into other namespaces")
+		c14NamespacedMembers(c)
 	}
 	if c.Mine(1) {
 		// default values that lead back to their own property only through a reference into another namespace: such a
